@@ -464,12 +464,20 @@ struct Bus {
     flips: Vec<(u64, u8)>,
     dead: Option<(u64, u8)>, // from this MISO position on: 0 = FF, 1 = 00, 2 = pseudo-random
     all_miso: Vec<u8>,
+    call_bytes: u64, // bytes clocked during the current API call
+    hung: bool,      // the call exceeded CALL_BUDGET bytes: treated as "does not return"
 }
+const CALL_BUDGET: u64 = 40_000_000;
 impl Bus {
     fn fails_now(&self) -> bool {
         self.fails.iter().any(|&(v, from)| if from { self.calln >= v } else { self.calln == v })
     }
     fn clock(&mut self, mosi: u8) -> u8 {
+        self.call_bytes += 1;
+        if self.call_bytes > CALL_BUDGET {
+            self.hung = true;
+            panic!("call budget exceeded");
+        }
         let mut m = match &mut self.be {
             Backend::Raw { miso, pos, pad } => {
                 if *pos < miso.len() {
@@ -689,7 +697,7 @@ fn run_scenario(out: &mut impl Write, id: &str, crc: &str, retries: &str, be: Ba
             }
         }
     }
-    let bus = Rc::new(RefCell::new(Bus { be, log: vec![], calln: 0, fails: parse_fails(fails), nbytes: 0, flips, dead, all_miso: vec![] }));
+    let bus = Rc::new(RefCell::new(Bus { be, log: vec![], calln: 0, fails: parse_fails(fails), nbytes: 0, flips, dead, all_miso: vec![], call_bytes: 0, hung: false }));
     let card = SdCard::new_with_options(
         MockSpi(bus.clone()),
         MockDelay(bus.clone()),
@@ -725,6 +733,7 @@ fn run_scenario(out: &mut impl Write, id: &str, crc: &str, retries: &str, be: Ba
         } else {
             HashMap::new()
         };
+        bus.borrow_mut().call_bytes = 0;
         let res: Result<Result<String, String>, ()> = catch_unwind(AssertUnwindSafe(|| match p[0] {
             "r" | "rd" => {
                 let n: usize = p[1].parse().unwrap();
@@ -771,7 +780,15 @@ fn run_scenario(out: &mut impl Write, id: &str, crc: &str, retries: &str, be: Ba
         match &res {
             Ok(Ok(v)) => writeln!(out, "R {} ok {}", k, v).unwrap(),
             Ok(Err(e)) => writeln!(out, "R {} err {}", k, e).unwrap(),
-            Err(()) => writeln!(out, "R {} panic", k).unwrap(),
+            Err(()) => {
+                // (a RefCell borrow may still be held by the unwound transaction: try_borrow)
+                let hung = bus.try_borrow().map(|b| b.hung).unwrap_or(true);
+                if hung {
+                    writeln!(out, "R {} hang", k).unwrap()
+                } else {
+                    writeln!(out, "R {} panic", k).unwrap()
+                }
+            }
         }
         if let Some(e) = exp {
             writeln!(out, "{}", e).unwrap();
